@@ -64,7 +64,19 @@ def _abstract(case):
     return recs, keys, iso, nodes
 
 
-@with_history
+def _warmup(h):
+    """Ask the directed measures once; results are discarded."""
+    from hypergraphx.measures import directed as DM
+    DM.in_degree_sequence(h)
+    DM.out_degree_sequence(h)
+    for M in (3, 4):
+        DM.hyperedge_signature_vector(h, M)
+        DM.exact_reciprocity(h, M)
+        DM.strong_reciprocity(h, M)
+        DM.weak_reciprocity(h, M)
+
+
+@with_history(warmup=_warmup)
 def _build(case, recs, iso):
     from hypergraphx import DirectedHypergraph
     es = [(tuple(s), tuple(t)) for s, t in recs]
